@@ -48,9 +48,13 @@ Definition t2_ok (c : howcfg) (k : jcase) : bool :=
   | _, _ => false
   end.
 
+(** inside the domain of C02_partial (prog_dom) or of C02_right_join (a single right outer join without colliding names) *)
 Definition in_domain (c : howcfg) (k : jcase) : bool :=
-  nodupb (cols (c_left k)) && chain_dom c (init_st (c_left k) (c_lbase k) (c_lctes k)) (c_steps k)
-  && match c_fin k with FNone => true | _ => false end.
+  prog_dom c (c_left k) (c_lbase k) (c_lctes k) (c_steps k) (c_fin k)
+  || match c_steps k, c_fin k with
+     | [x], FNone => right_dom (c_left k) (c_lbase k) (c_lctes k) x
+     | _, _ => false
+     end.
 
 Definition b2s (b : bool) : string := if b then "1" else "0".
 
